@@ -164,6 +164,9 @@ def goP (tag : String) (ver loc : Bytes) : BookSys.RunIdStP → Bytes → Bytes 
     if s.runId = m then
       let (l2, r) := goP tag ver loc s m sec rest
       (s!"#{tag} call ret=true runId={Hex.encode s.runId} pend={pendStr s.pend}" :: l2, r)
+    else if loc = [] then
+      let (l2, r) := goP tag ver loc { s with runId := m } m sec rest
+      (s!"#{tag} call ret=true runId={Hex.encode m} pend={pendStr s.pend}" :: l2, r)
     else
       let (lines, s1, ok) := srTraceP tag ver loc m s (as.take 3)
       let (l2, r) := goP tag ver loc s1 m sec rest
@@ -214,11 +217,16 @@ theorem goP_eq (tag : String) (ver loc : Bytes) (steps : List BookSys.SrStepP) :
       · simp only [h, if_true, BookSys.srRunP, BookSys.srSecP, BookSys.setRunIdP]
         have := ih s m sec
         simpa using this
-      · simp only [h, if_false, BookSys.srRunP, BookSys.srSecP, BookSys.setRunIdP]
-        have e := srTraceP_eq tag ver loc m (as.take 3) s
-        have := ih (srTraceP tag ver loc m s (as.take 3)).2.1 m sec
-        rw [← e]
-        simpa using this
+      · by_cases h0 : loc = []
+        · simp only [h, h0, if_false, if_true, BookSys.srRunP, BookSys.srSecP, BookSys.setRunIdP]
+          have := ih { s with runId := m } m sec
+          rw [h0] at this
+          simpa using this
+        · simp only [h, h0, if_false, BookSys.srRunP, BookSys.srSecP, BookSys.setRunIdP]
+          have e := srTraceP_eq tag ver loc m (as.take 3) s
+          have := ih (srTraceP tag ver loc m s (as.take 3)).2.1 m sec
+          rw [← e]
+          simpa using this
     | failover N =>
       unfold goP
       simp only [BookSys.srRunP, BookSys.srSecP]
